@@ -31,6 +31,7 @@ func checkC14(c *Check) {
 	c14WholePassword(c)
 	c14Surroundings(c)
 	c14SchemeSiblings(c)
+	c14SameStatementArgs(c, "R3g")
 	c14Providers(c)
 	c14Mapping(c)
 	c14Gate(c)
@@ -94,6 +95,68 @@ func c14Keys(c *Check) {
 	}
 	sort.Strings(ns)
 	c.Hold("R1", "pass_table:one-normaliser", token.NoPos, len(ns) == 1, "different operations normalise the user name with different functions: "+strings.Join(ns, ", "))
+	// … and a normaliser written in the package itself normalises on every path: what it returns as the key is the
+	// result of a PRECIS profile applied to its parameter, never the parameter as given (a fast path for names "with
+	// nothing to case-map" skips width mapping, NFC and the rejection of invalid names: the same account gets two keys)
+	for _, nm := range pk.Types.Scope().Names() {
+		fo, isFn := pk.Types.Scope().Lookup(nm).(*types.Func)
+		if !isFn || !normalisers[qname(fo)] {
+			continue
+		}
+		fi := p.DeclOf(fo) // also a helper the reference tree did not have (read in place elsewhere)
+		if fi == nil || fi.Decl.Body == nil {
+			continue
+		}
+		info := fi.Info()
+		sig := fi.Obj.Type().(*types.Signature)
+		if sig.Params().Len() < 1 || sig.Results().Len() != 2 {
+			continue
+		}
+		c.SawFunc(fi.Name())
+		prm := sig.Params().At(0)
+		r := c.CtxOf(fi)
+		isProfile := func(e ast.Expr) bool {
+			call, ok := ast.Unparen(e).(*ast.CallExpr)
+			if !ok {
+				return false
+			}
+			fn := callee(info, call)
+			return fn != nil && fn.Pkg() != nil && strings.HasSuffix(fn.Pkg().Path(), "text/secure/precis")
+		}
+		bad := ""
+		for _, b := range r.F.G.Blocks {
+			q := Pt{b, len(b.Nodes)}
+			_, ret := r.F.Exit(q)
+			if ret == nil || len(ret.Results) == 0 {
+				continue
+			}
+			if len(ret.Results) == 1 {
+				if !isProfile(ret.Results[0]) {
+					bad = "returns " + exprStr(ret.Results[0])
+				}
+				continue
+			}
+			if !isNilIdent(info, ret.Results[1]) {
+				if v, isVar := objOf(info, ret.Results[1]).(*types.Var); !isVar || v.IsField() {
+					continue // an error literal: a refusal
+				}
+			}
+			res := ast.Unparen(ret.Results[0])
+			if objOf(info, res) == types.Object(prm) {
+				bad = "returns its parameter unchanged (line " + itoa(p.Fset.Position(ret.Pos()).Line) + ")"
+				continue
+			}
+			if v, isVar := objOf(info, res).(*types.Var); isVar && !v.IsField() {
+				defs, _ := r.ReachingDefs(v, q, nil)
+				for _, d := range defs {
+					if objOf(info, d) == types.Object(prm) {
+						bad = "returns its parameter unchanged through " + v.Name()
+					}
+				}
+			}
+		}
+		c.Hold("R1", "pass_table:"+refName(fi.Obj)+":always-normalises", fi.Decl.Pos(), bad == "", "the user-name normaliser "+refName(fi.Obj)+" "+bad+": names it considers already normal skip the PRECIS profile (width mapping, NFC, rejection of invalid names) – account management under a full-width or NFD spelling addresses another row than the login, which the endpoint has normalised: a changed password leaves the old one valid, a deleted account still authenticates")
+	}
 }
 
 // c14JudgeKey: the key is the first result of a normaliser applied to a string parameter; a key that is itself a
